@@ -449,9 +449,16 @@ def gen_format(rng, d):
             continue
         rows = []
         x = rng.uniform(-5, 5)
-        for _ in range(rng.choice([0, 1, 2, 3, 10, 40])):
+        nrows = rng.choice([0, 1, 2, 3, 10, 40, 99, 100, 101, 199, 200, 201, 250])      # GD_LUT_CHUNK is 100: cross the growth step
+        cplx = rng.random() < 0.2
+        for _ in range(nrows):
             x += rng.choice([1.0, 0.5, 0.0, -1.0, 2.0])
-            rows.append(rng.choice(["%g %g" % (x, rng.uniform(-3, 3))] * 6 + ["%g %g;%g" % (x, 1.0, 2.0), "junk", "nan 1", "%g" % x, "1e999 2", "# c"]))
+            if nrows > 40:      # long tables: valid rows only (one bad row ends the table), a bad one perhaps at the very end
+                rows.append("%g %g;%g" % (x, 1.0, 2.0) if cplx else "%g %g" % (x, rng.uniform(-3, 3)))
+            else:
+                rows.append(rng.choice(["%g %g" % (x, rng.uniform(-3, 3))] * 6 + ["%g %g;%g" % (x, 1.0, 2.0), "junk", "nan 1", "%g" % x, "1e999 2", "# c"]))
+        if nrows > 40 and rng.random() < 0.2:
+            rows.append(rng.choice(["junk", "%g" % x, "1 2;"]))
         open(os.path.join(d, "lut%d" % i), "w").write("\n".join(rows) + ("\n" if rng.random() < 0.8 else ""))
     return ("\n".join(lines) + "\n").encode()
 
